@@ -82,9 +82,11 @@ func (s exhSpec) eachByte(depth int, f func(text string)) {
 	}
 }
 
-// exhSpecs lists the enumerations; d = extra length (0 quick, 1 thorough).
-func exhSpecs(d int, sel string) []exhSpec {
-	quick := d == 0
+// exhSpecs lists the enumerations; d = extra length; full = every header kind / option word (thorough tier).
+// Quick: (0, false). Thorough: (1, true) for the one-shot correspondence, (0, true) under the metamorphic oracles
+// (which multiply every text by its chunk schedules / suffixes).
+func exhSpecs(d int, full bool, sel string) []exhSpec {
+	quick := !full
 	var out []exhSpec
 	add := func(group string, s exhSpec) {
 		if sel == "" || strings.Contains(sel, group) {
@@ -158,7 +160,8 @@ func allCuts(n int) []int {
 // (the one-shot sessions carry only the prefix as their buffer, so equal prefixes of different strings share one
 // session) and, in the thorough tier, every two-chunk schedule.
 func (g *Gen) exhResume(prop, sel string) {
-	d := g.budget(0, 1)
+	full := g.tier == "thorough"
+	d := 0
 	intern := map[string]string{}
 	mk := func(hd, text string, cuts []int, flags int, desc string) {
 		c := resumeCase(prop, hd, text, 0, cuts, flags, flags, desc)
@@ -173,7 +176,7 @@ func (g *Gen) exhResume(prop, sel string) {
 		}
 		g.add(c)
 	}
-	for _, s := range exhSpecs(d, sel) {
+	for _, s := range exhSpecs(d, full, sel) {
 		s.each(func(text string) {
 			n := len(text)
 			if n == 0 {
@@ -187,7 +190,7 @@ func (g *Gen) exhResume(prop, sel string) {
 			}
 		})
 		if !strings.HasPrefix(s.hd, "msg") || s.hd == "msg 3 1" {
-			s.eachByte(-1+2*d, func(text string) {
+			s.eachByte(-1, func(text string) {
 				mk(s.hd, text, allCuts(len(text)), s.flags, s.desc+"-anybyte")
 			})
 		}
@@ -197,7 +200,7 @@ func (g *Gen) exhResume(prop, sel string) {
 // exhOneShot: correspondence only (model = implementation on every enumerated string, one call)
 func (g *Gen) exhOneShot(prop, sel string) {
 	d := g.budget(0, 1)
-	for _, s := range exhSpecs(d, sel) {
+	for _, s := range exhSpecs(d, d == 1, sel) {
 		one := func(desc string) func(text string) {
 			return func(text string) {
 				g.add(Case{Prop: prop, Desc: desc, Lines: []string{parseSess(s.hd, text, 0, []int{len(text)}, s.flags, true, "")},
@@ -211,9 +214,10 @@ func (g *Gen) exhOneShot(prop, sel string) {
 
 // exhStable: every enumerated string b (without the trailer) extended by each of a few suffixes
 func (g *Gen) exhStable(prop, sel string) {
-	d := g.budget(0, 1)
+	full := g.tier == "thorough"
+	d := 0
 	sfx := []string{"\r\nX", " ", "a", "\r\n ", "\nX", ";"}
-	for _, s := range exhSpecs(d, sel) {
+	for _, s := range exhSpecs(d, full, sel) {
 		tr := s.trailer
 		s.trailer = ""
 		isMsg := strings.HasPrefix(s.hd, "msg")
@@ -227,7 +231,7 @@ func (g *Gen) exhStable(prop, sel string) {
 			}
 			for k, x := range sfx {
 				// quick tier: two of the six suffixes per string (fixed by the string), thorough: all
-				if d == 0 && k != len(text)%3 && k != 3+(len(text)+int(text[len(text)-1]))%3 {
+				if !full && k != len(text)%3 && k != 3+(len(text)+int(text[len(text)-1]))%3 {
 					continue
 				}
 				g.add(stableCase(prop, s.hd, text, x, 0, s.flags&^8, s.desc+"-ext"))
@@ -238,8 +242,7 @@ func (g *Gen) exhStable(prop, sel string) {
 
 // exhShift: every enumerated string at offset 0 and behind 1 / 3 junk bytes
 func (g *Gen) exhShift(prop, sel string) {
-	d := g.budget(0, 1)
-	for _, s := range exhSpecs(d, sel) {
+	for _, s := range exhSpecs(0, g.tier == "thorough", sel) {
 		s.each(func(text string) {
 			if text == "" {
 				return
@@ -255,7 +258,7 @@ func (g *Gen) exhShift(prop, sel string) {
 
 // exhReset: a parse of an enumerated string abandoned wherever it stopped, then Reset (or Init), then a fixed valid input
 func (g *Gen) exhReset(prop, sel string) {
-	d := g.budget(0, 1)
+	full := g.tier == "thorough"
 	finals := map[string]string{
 		"nameaddr": "\"x\" <sip:a@b>;tag=1;expires=2\r\nX", "pai1": "<sip:a@b>\r\nX", "contacts": "<sip:a@b>;expires=7, <c>;q=0.5\r\nX",
 		"pais": "<a>, <b>\r\nX", "tokparam": "a=b;c\r\nX", "uriparams": "a=b;lr;c=d\r\nX", "urihdrs": "a=b&c=d\r\nX",
@@ -263,7 +266,7 @@ func (g *Gen) exhReset(prop, sel string) {
 		"clen": "42\r\nX", "callid": "a@b\r\nX", "fline": "INVITE sip:a SIP/2.0\r\nX",
 		"msg": "INVITE sip:a SIP/2.0\r\nf:<a>;tag=1\r\nt:<b>\r\ni:c\r\nCSeq:1 INVITE\r\nm:<d>;expires=3\r\nl:0\r\n\r\n", "msgz": "INVITE sip:a SIP/2.0\r\nf:<a>\r\nl:0\r\n\r\n",
 	}
-	for _, s := range exhSpecs(d, sel) {
+	for _, s := range exhSpecs(0, full, sel) {
 		kind := strings.Fields(s.hd)[0]
 		fin, ok := finals[kind]
 		if !ok {
